@@ -397,7 +397,7 @@ func (tw *tworld) sendOutbound(o outbound, sport uint16) (emitted int, panicked 
 func TestC06(t *testing.T) {
 	env := kit.GetEnv()
 	rep := kit.NewReport("C06", env)
-	rep.Rule = "configurations: {tcp,udp,http,https,icmp6,ping6} x {explicit port 8080, default port} x {public, friends, for=[IP], for=[friend name], friends+for} x friends in {none,{F1},{F1,F2}} x isolate {off,on} (thorough: all ordered pairs of services over {public, friends, for=[IP], friends+for} incl. colliding keys), each through the real Store parser; per accepted configuration on one real router with four real keyed neighbours: inbound packets = sender {friend, friend2, listed, stranger} x protocol {0,1,6,17,58,255} x dst port {0,80,443,8080,81} x inner src {sender, other} x inner dst {self, other, API address} x frame {sealed by sender, sealed by another router, garbage, sealed by sender and label-switched with a switch block that R's switch rotates (2 shapes)}, judged on the bytes the tun writer puts on the interface; outbound = src {own, foreign} x dst {friend, stranger, listed, multicast, non-Mycoria, unrouted Mycoria} x protocol {6,17,58} ; plus multi-step sequences over mirrored 5-tuples (verdict cache), including expiry of the cached verdict through the real cleaner after 11 minutes of virtual time, and refused flows (inbound without service, outbound against isolation) after each of six authentic error notices (unreachable naming the peer from a third router; generic, unreachable, no-encryption-keys followed by fresh key setup, access-denied, rejected from the peer itself) + pauses + cleaner runs; each packet uses a fresh source port so verdicts are independent unless a sequence says otherwise; non-trivial = packets whose reference verdict is 'deliver' or that deviate in exactly one condition from a deliverable packet; distinct = distinct (configuration, packet)"
+	rep.Rule = "configurations: {tcp,udp,http,https,icmp6,ping6} x {explicit port 8080, default port} x {public, friends, for=[IP], for=[friend name], friends+for} x friends in {none,{F1},{F1,F2}} x isolate {off,on} (thorough: all ordered pairs of services over {public, friends, for=[IP], friends+for} incl. colliding keys), each through the real Store parser; per accepted configuration on one real router with four real keyed neighbours: inbound packets = sender {friend, friend2, listed, stranger} x protocol {0,1,6,17,58,255} x dst port {0,80,443,8080,81} x inner src {sender, other} x inner dst {self, other, API address} x frame {sealed by sender, sealed by another router, garbage, sealed by sender and label-switched with a switch block that R's switch rotates (2 shapes)}, judged on the bytes the tun writer puts on the interface; outbound = src {own, foreign} x dst {friend, stranger, listed, multicast, non-Mycoria, unrouted Mycoria} x protocol {6,17,58} ; plus multi-step sequences over mirrored 5-tuples (verdict cache), including expiry of the cached verdict through the real cleaner after 11 minutes of virtual time, and refused flows (inbound without service, outbound against isolation) after each of six authentic error notices (unreachable naming the peer from a third router; generic, unreachable, no-encryption-keys followed by fresh key setup, access-denied, rejected from the peer itself), after a fresh key setup started by the peer and after a pong exchange with it + pauses + cleaner runs; each packet uses a fresh source port so verdicts are independent unless a sequence says otherwise; non-trivial = packets whose reference verdict is 'deliver' or that deviate in exactly one condition from a deliverable packet; distinct = distinct (configuration, packet)"
 	rep.Assumptions = []string{
 		"the verdict cache is by design: a packet mirroring the 5-tuple of a previously allowed flow in the other direction shares that flow's verdict; single-packet cases use fresh tuples, the cache is exercised in dedicated two-step sequences and judged with the same memo in the reference",
 		"'enters the mesh' = a frame emitted by R on any virtual link while the local packet is handled (traffic frame or hello ping)",
@@ -586,7 +586,7 @@ func TestC06(t *testing.T) {
 					// the status of every flow with that peer), and generic / unreachable / no
 					// encryption keys (keys are then set up again) / access denied / rejected from
 					// the peer itself - followed by pauses and runs of the cleaner.
-					for _, notice := range []string{"unreachable-from-third-router", "generic-from-peer", "unreachable-self-from-peer", "no-encryption-keys-from-peer", "access-denied-from-peer", "rejected-from-peer"} {
+					for _, notice := range []string{"unreachable-from-third-router", "generic-from-peer", "unreachable-self-from-peer", "no-encryption-keys-from-peer", "access-denied-from-peer", "rejected-from-peer", "fresh-key-setup-started-by-peer", "pong-exchange-with-peer"} {
 						sport += 2
 						in7 := inbound{peer, proto, 81, peer, iR, 0}
 						w7 := tw.refInbound(in7, sport)
@@ -615,11 +615,27 @@ func TestC06(t *testing.T) {
 						case "rejected-from-peer":
 							code, body = 4, kit.MustCBOR(map[string]any{"d": pool[peer].IP, "t": proto, "p": uint16(9100)})
 						}
-						ep, err := kit.BuildPing(reporter, kit.PingSpec{Dst: tw.r.Identity().IP, MsgType: frame.RouterPing, PingType: "error", Code: code, Body: body})
-						if err != nil {
-							panic(err)
+						switch notice {
+						case "fresh-key-setup-started-by-peer":
+							// the peer re-keys (it may start a hello exchange at any time); both ends complete it.
+							tw.w.InFlight = nil
+							if _, err := tw.nb[peer].Router().HelloPing.Send(tw.r.Identity().IP); err != nil {
+								panic(err)
+							}
+							tw.w.Run(kit.FIFO, 20)
+						case "pong-exchange-with-peer":
+							tw.w.InFlight = nil
+							if _, _, err := tw.nb[peer].Router().PingPong.Send(tw.r.Identity().IP, true, 0); err != nil {
+								panic(err)
+							}
+							tw.w.Run(kit.FIFO, 20)
+						default:
+							ep, err := kit.BuildPing(reporter, kit.PingSpec{Dst: tw.r.Identity().IP, MsgType: frame.RouterPing, PingType: "error", Code: code, Body: body})
+							if err != nil {
+								panic(err)
+							}
+							tw.w.Inject(reporter, tw.r, ep)
 						}
-						tw.w.Inject(reporter, tw.r, ep)
 						tw.w.InFlight = nil
 						if code == 2 {
 							// both ends set up fresh keys, as the next packet would trigger.
